@@ -219,6 +219,12 @@ class Canon:
             return "*" + self.ptext(node.value)
         if isinstance(node, (ast.BinOp, ast.UnaryOp)):
             return "(" + self.poly(node).canon() + ")"
+        if isinstance(node, ast.Compare):
+            parts = [self.ptext(node.left)]
+            for op, r in zip(node.ops, node.comparators):
+                parts.append(type(op).__name__)
+                parts.append(self.ptext(r))
+            return "cmp(" + " ".join(parts) + ")"
         return src(node)
 
     def ptext(self, node):
@@ -340,3 +346,126 @@ def truth_table(tree, atoms):
     for vals in itertools.product((False, True), repeat=len(atoms)):
         tab[vals] = eval_bool(tree, dict(zip(atoms, vals)))
     return tab
+
+
+# ------------------------------------------------------------------------------------------------
+_FLIP = {"Lt": "Gt", "Gt": "Lt", "LtE": "GtE", "GtE": "LtE", "Eq": "Eq", "NotEq": "NotEq"}
+
+
+def compare_atom(canon, left, op, right):
+    """canonical atom text for a binary comparison, orientation-normalised (a < b == b > a)"""
+    l, r, o = canon.ptext(left), canon.ptext(right), type(op).__name__
+    if o in ("Gt", "GtE") or (o in ("Eq", "NotEq") and l > r):
+        l, r, o = r, l, _FLIP[o]
+    return "%s %s %s" % (l, o, r)
+
+
+class BoolTracker:
+    """Sequential symbolic evaluation of boolean-valued names over a statement list (loops: body once).
+    trees[name] is the boolean tree of the current value of ``name`` over versioned atoms."""
+
+    BOOL_CALLS = ("logical_and", "logical_or", "logical_not")
+
+    def __init__(self, canon=None, tracked=None):
+        self.canon = canon or Canon()
+        self.trees = {}
+        self.version = {}
+        self.leaves = {}
+        self.tracked_only = set(tracked) if tracked else None
+        self.history = {}        # name -> list of (stmt, tree)
+
+    def _ver(self, node):
+        names = sorted({n.id for n in ast.walk(node) if isinstance(n, ast.Name) and self.version.get(n.id, 0) > 0})
+        return "".join("@%s%d" % (n, self.version[n]) for n in names)
+
+    def tree(self, n):
+        if isinstance(n, ast.BoolOp):
+            return ("and" if isinstance(n.op, ast.And) else "or", [self.tree(v) for v in n.values])
+        if isinstance(n, ast.UnaryOp) and isinstance(n.op, (ast.Not, ast.Invert)):
+            return ("not", [self.tree(n.operand)])
+        if isinstance(n, ast.BinOp) and isinstance(n.op, (ast.BitAnd, ast.BitOr)):
+            return ("and" if isinstance(n.op, ast.BitAnd) else "or", [self.tree(n.left), self.tree(n.right)])
+        if isinstance(n, ast.Call):
+            f = fname(n)
+            if f in ("logical_and", "logical_or") and len(n.args) == 2:
+                return ("and" if f == "logical_and" else "or", [self.tree(n.args[0]), self.tree(n.args[1])])
+            if f == "logical_not" and len(n.args) == 1:
+                return ("not", [self.tree(n.args[0])])
+            if f == "bool" and len(n.args) == 1:
+                return self.tree(n.args[0])
+        if isinstance(n, ast.Compare) and len(n.ops) > 1:
+            parts = []
+            left = n.left
+            for op, r in zip(n.ops, n.comparators):
+                parts.append(self._cmp_atom(left, op, r))
+                left = r
+            return ("and", parts)
+        if isinstance(n, ast.Compare):
+            return self._cmp_atom(n.left, n.ops[0], n.comparators[0])
+        if isinstance(n, ast.Name) and n.id in self.trees:
+            return self.trees[n.id]
+        if isinstance(n, ast.Constant) and isinstance(n.value, bool):
+            return ("const", n.value)
+        k = self.canon.ptext(n) + self._ver(n)
+        self.leaves.setdefault(k, n)
+        return ("atom", k)
+
+    def _cmp_atom(self, left, op, right):
+        k = compare_atom(self.canon, left, op, right) + self._ver(ast.Tuple(elts=[left, right], ctx=ast.Load()))
+        self.leaves.setdefault(k, (left, op, right))
+        return ("atom", k)
+
+    def is_boolish(self, v):
+        if isinstance(v, (ast.BoolOp, ast.Compare)):
+            return True
+        if isinstance(v, ast.UnaryOp) and isinstance(v.op, (ast.Not, ast.Invert)):
+            return True
+        if isinstance(v, ast.BinOp) and isinstance(v.op, (ast.BitAnd, ast.BitOr)):
+            return True
+        if isinstance(v, ast.Call) and fname(v) in self.BOOL_CALLS + ("bool",):
+            return True
+        if isinstance(v, ast.Name) and v.id in self.trees:
+            return True
+        return False
+
+    def run(self, stmts):
+        for st in stmts:
+            if isinstance(st, ast.Assign) and len(st.targets) == 1:
+                t = st.targets[0]
+                names = [x.id for x in ast.walk(t) if isinstance(x, ast.Name) and isinstance(x.ctx, ast.Store)]
+                if isinstance(t, ast.Name) and self.is_boolish(st.value) and (self.tracked_only is None or t.id in self.tracked_only):
+                    tr = self.tree(st.value)
+                    self.trees[t.id] = tr
+                    self.history.setdefault(t.id, []).append((st, tr))
+                    self.version[t.id] = self.version.get(t.id, 0) + 1
+                else:
+                    for nm in names:
+                        self.version[nm] = self.version.get(nm, 0) + 1
+                        self.trees.pop(nm, None)
+                    if isinstance(t, ast.Subscript) and isinstance(t.value, ast.Name):
+                        # masked store  name[mask] = value : the name no longer denotes the tracked function everywhere
+                        self.history.setdefault(t.value.id, []).append((st, None))
+            elif isinstance(st, ast.AugAssign) and isinstance(st.target, ast.Name):
+                self.version[st.target.id] = self.version.get(st.target.id, 0) + 1
+                self.trees.pop(st.target.id, None)
+            elif isinstance(st, (ast.For, ast.While)):
+                for x in ast.walk(st.target) if isinstance(st, ast.For) else []:
+                    if isinstance(x, ast.Name):
+                        self.version[x.id] = self.version.get(x.id, 0) + 1
+                self.run(st.body)
+            elif isinstance(st, ast.If):
+                self.run(st.body)
+                self.run(st.orelse)
+            elif isinstance(st, ast.With):
+                self.run(st.body)
+
+
+def tree_atoms(tree, out=None):
+    out = out if out is not None else []
+    if tree[0] == "atom":
+        if tree[1] not in out:
+            out.append(tree[1])
+    elif tree[0] != "const":
+        for t in tree[1]:
+            tree_atoms(t, out)
+    return out
